@@ -147,6 +147,11 @@ def large_cases():
     for shape in ([1100, 1000], [1025, 1024], [700, 1500], [1024, 1024]):
         for conv, bits in (("simple", 16), ("sar", 12), ("sar_noise", 12), ("sar_noise", 8)):
             out.append({"shape": shape, "conv": conv, "bits": bits, "vmin": -1.0, "vmax": 3.0, "seed": shape[0] + bits})
+    # frames that are not C-contiguous in memory (a transposed frame, a Fortran-saved file): same voltages, same codes
+    for shape in ([6, 9], [40, 25], [700, 1500]):
+        for conv, bits in (("simple", 12), ("sar", 10), ("sar_noise", 10)):
+            for order in ("F", "T"):
+                out.append({"shape": shape, "conv": conv, "bits": bits, "vmin": 0.0, "vmax": 5.0, "seed": shape[1] + bits, "order": order})
     return out
 
 
@@ -163,9 +168,18 @@ def body_large(case, rec):
     sig[-1, -8:] = vmax + 1.0  # the very last pixels of the frame are above the range
     sig[0, :8] = vmin - 1.0
     det = build_detector(simple_spec("CCD", row=rows, col=cols, adc_bit_resolution=b, adc_voltage_range=[vmin, vmax]))
+    if case.get("order"):
+        rec.cls(f"large:memory_order:{case['order']}")
+
+    def frame():
+        if case.get("order") == "F":
+            return np.asfortranarray(sig)
+        if case.get("order") == "T":
+            return np.ascontiguousarray(sig.T).T  # a transposed view of a C-ordered buffer
+        return sig.copy()
 
     def convert(which):
-        det.signal.array = sig.copy()
+        det.signal.array = frame()
         if which == "simple":
             simple_adc(det)
         elif which == "sar":
